@@ -96,6 +96,10 @@ func MakeRemoteSource(sourceType string, u *url.URL, subPath string) (RemoteSour
 		return RemoteSource{}, fmt.Errorf("invalid sub-path: %w", err)
 	}
 
+	if u.User != nil {
+		return RemoteSource{}, fmt.Errorf("must not use username or password in URL portion")
+	}
+
 	copyU := *u // shallow copy so we can safely modify
 
 	return makeRemoteSource(sourceType, &copyU, subPath)
